@@ -1,8 +1,8 @@
 \* C10 exhaustive: every attach/detach order on two interleaved threads, depth <= 3
-CONSTANTS NT = 2  NK = 1  NV = 1  NS = 1  MaxCtx = 2  MaxSet = 1  MaxDepth = 3  MaxMap = 1  MaxDrop = 0  WithEmpty = FALSE
+CONSTANTS NT = 2  NK = 1  NV = 1  NS = 1  MaxCtx = 1  MaxSet = 1  MaxDepth = 3  MaxMap = 1  MaxDrop = 0  MaxTok = 4  SampleToks = 0  WithEmpty = FALSE
           GenDepth = 0  DeepTarget = 99  Hist = FALSE  KeepFlags = FALSE  Dev = {}
 INIT Init
 NEXT Next
 VIEW View
 INVARIANTS TypeOK MostRecentBinding Shadowing StackFrames
-PROPERTIES Immutable AttachMakesCurrent DetachRestores ForeignTokenNoOp ScopeActivates ThreadsIsolated
+PROPERTIES Immutable AttachMakesCurrent DetachRestores ForeignTokenNoOp TokenLifetime ScopeActivates ThreadsIsolated
